@@ -73,6 +73,14 @@ Fixpoint closes_at_end (depth : nat) (p : list action) : bool :=
 Definition one_section (l : Z) (p : list action) : bool :=
   match p with [] => true | Acq l' :: r => (l' =? l) && closes_at_end 1 r | _ => false end.
 
+(* a method summary performs a given access somewhere *)
+Definition act_eqb (a b : action) : bool :=
+  match a, b with
+  | Acq x, Acq y | Rel x, Rel y | Rd x, Rd y | Wr x, Wr y => x =? y
+  | _, _ => false
+  end.
+Definition touches (a : action) (m : list action) : bool := existsb (act_eqb a) m.
+
 Definition db_init : dbs := mkDb [] 0.
 Definition keys (s : dbs) : list Z := map fst (d_items s).
 Definition inserted_ids (rs : list dres) : list Z := flat_map (fun r => match r with RId i => [i] | _ => [] end) rs.
@@ -87,7 +95,10 @@ Definition ldm_write (f : Z) : option Z :=
 (* the two reactive time stamps are read without their lock (a stale read only delays a maintenance pass) *)
 Definition ldm_read (f : Z) : option Z := if (f =? 3) || (f =? 8) then None else ldm_write f.
 Definition ldm_policy : policy := mkPolicy ldm_read ldm_write.
-Definition ldm_rank (l : Z) : Z := if l =? 0 then 2 else 1.     (* the database lock is innermost *)
+(* the database lock is innermost; the state lock of the service is OUTERMOST: an IF.LDM.3 add holds it around the
+   insertion (maintenance lock, then database lock) so that "provider registered? then insert" is one step with respect
+   to a deregistration; nothing below the service (maintenance, database) ever takes the service lock *)
+Definition ldm_rank (l : Z) : Z := if l =? 0 then 2 else if l =? 3 then 0 else 1.
 Definition ldm_reent (l : Z) : bool := (l =? 0) || (l =? 3).    (* the two RLocks *)
 
 (* ---- registries and subscriptions of the service (critical sections of LDMService._lock) ---- *)
